@@ -157,7 +157,7 @@ func checkC13(w *Worker) {
 	// calendar: every day around every turn of the year 2018..2027 (ISO week-years differ from calendar years there), the
 	// ends of February, and far-away years; one row per day, dates ISO formatted
 	w.Explore("csv-log-calendar", ExploreOpts{ShardDepth: 1}, func(x *Exec) {
-		order := x.Choose(2, "input:order")
+		order := x.Choose(3, "input:order") // as listed, reversed, the zero date 0001/01/01 first
 		var days []string
 		for y := 2018; y <= 2027; y++ {
 			for d := 24; d <= 31; d++ {
@@ -183,6 +183,9 @@ func checkC13(w *Worker) {
 			for l, r := 0, len(days)-1; l < r; l, r = l+1, r-1 {
 				days[l], days[r] = days[r], days[l]
 			}
+		}
+		if order == 2 {
+			days = append([]string{"0001/01/01", "0001/01/01", "0001/01/02"}, days...)
 		}
 		var sb strings.Builder
 		var want []csvWant
